@@ -206,6 +206,19 @@ func c16Invalidations() []invDev {
 	post("ext-keys-invalid-utf8-colliding-after-replacement", "ext", "", "", func(r *reqSpec, req *signature.SignRequest, rs *envenc.RemoteSigner) {
 		req.ExtendedSignedAttributes = []signature.Attribute{attr("k\xff", false, "a"), attr("k\xfe", true, "b")}
 	})
+	// ... also when it comes after other keys of any type (every key is looked at)
+	for _, mix := range []struct {
+		n    string
+		keys []any
+	}{{"int64-then-invalid-utf8", []any{int64(1000), "k\xff"}}, {"int-then-invalid-utf8", []any{1000, "k\xff"}}, {"text-int64-then-invalid-utf8", []any{"io.example.ok", int64(1000), "k\xff"}}, {"uint8-then-invalid-utf8", []any{uint8(200), "k\xfe"}}} {
+		mix := mix
+		post("cose-ext-keys="+mix.n, "ext", "cose", "", func(r *reqSpec, req *signature.SignRequest, rs *envenc.RemoteSigner) {
+			req.ExtendedSignedAttributes = nil
+			for i, k := range mix.keys {
+				req.ExtendedSignedAttributes = append(req.ExtendedSignedAttributes, attr(k, false, fmt.Sprintf("v%d", i)))
+			}
+		})
+	}
 	// COSE: integer labels above the int64 range can be written but not read back by the library: not a request to sign
 	for _, bk := range []struct {
 		n string
